@@ -7,7 +7,7 @@ using namespace smt;
 
 namespace ratio
 {
-    flaw::flaw(solver &slv, std::vector<resolver *> causes, const bool &exclusive) : slv(slv), position(slv.get_idl_theory().new_var()), causes(std::move(causes)), exclusive(exclusive) {}
+    flaw::flaw(solver &slv, std::vector<resolver *> causes, const bool &exclusive, const lit &cond) : slv(slv), position(slv.get_idl_theory().new_var()), causes(std::move(causes)), exclusive(exclusive), cond(cond) {}
 
     resolver *flaw::get_cheapest_resolver() const noexcept
     {
@@ -40,7 +40,8 @@ namespace ratio
             [[maybe_unused]] bool dist = slv.get_sat_core().new_clause({slv.get_idl_theory().new_distance(c->effect.position, position, -1)});
             assert(dist);
         }
-        // we initialize the phi variable as the conjunction of the causes' rho variables..
+        // we initialize the phi variable as the conjunction of the causes' rho variables (and of the flaw's further condition)..
+        cs.push_back(cond);
         phi = slv.get_sat_core().new_conj(std::move(cs));
     }
 
